@@ -41,7 +41,7 @@ PROPERTIES = {
         'does_not_decide': 'that Deque really implements the order (its pointer algebra); order among skipped / stale nodes in sync',
     },
     'C04': {
-        'rules': [adm.rule_admission_outcomes, adm.rule_cmp_evict, cfg.rule_store_capacity, cfg.rule_weigh_exact, conc.rule_const_logsizes, conc.rule_loop_retry, flow.rule_flow_unsync, flow.rule_flow_sync, stale.rule_must_drain, stale.rule_explicit_sync],
+        'rules': [adm.rule_admission_outcomes, adm.rule_flow_admit_sums, adm.rule_cmp_evict, cfg.rule_store_capacity, cfg.rule_weigh_exact, conc.rule_const_logsizes, conc.rule_loop_retry, flow.rule_flow_unsync, flow.rule_flow_sync, stale.rule_must_drain, stale.rule_explicit_sync],
         'explanation': 'Structural half of the bound: a candidate that does not fit is admitted only with its victims removed or is itself '
                        'removed; oversize candidates are undone; over-capacity is evicted at every unsync operation and every maintenance '
                        'run with the exact exit test; counters are adjusted on every path (FLOW); the queue of un-applied writes is bounded '
@@ -69,7 +69,7 @@ PROPERTIES = {
         'does_not_decide': 'live-object counts at quiescent points, release timing relative to the clock',
     },
     'C10': {
-        'rules': [flow.rule_flow_unsync, flow.rule_flow_admit_sums_unsync, flow.rule_flow_sync, stale.rule_admit_live, stale.rule_stale_removal, cfg.rule_store_weigher, cfg.rule_weigh_exact, must.rule_scan_stops_with_cause],
+        'rules': [flow.rule_flow_unsync, flow.rule_flow_admit_sums_unsync, adm.rule_flow_admit_sums, flow.rule_flow_sync, stale.rule_admit_live, stale.rule_stale_removal, cfg.rule_store_weigher, cfg.rule_weigh_exact, must.rule_scan_stops_with_cause],
         'explanation': 'Per-path traces of every function that adds / removes / replaces a map entry: the final value written to each '
                        'counter is decomposed into a signed sum and must contain the removed entry\'s stored weight with sign - (and 1 with -), '
                        'the admitted candidate\'s weight with + (and 1), -old +new for updates, 0 after clear; accumulators are checked '
@@ -79,7 +79,7 @@ PROPERTIES = {
         'does_not_decide': 'the numeric equality itself (saturation, weigher determinism), quiescent multi-thread states',
     },
     'C01': {
-        'rules': [live.rule_guard_live_all, must.rule_must_invalidate, must.rule_must_insert, must.rule_auth_value, must.rule_impl_accessors, stale.rule_auth_ts_writers],
+        'rules': [live.rule_guard_live_all, must.rule_must_invalidate, must.rule_must_insert, must.rule_auth_value, must.rule_impl_accessors, stale.rule_auth_ts_writers, must.rule_update_resets],
         'explanation': 'Path-sensitive abstract interpretation of the 6 lookups (get / contains_key / Iter::next of both caches): on '
                        'every path that returns a hit, the entry that is returned was checked against ttl, tti and (sync) the '
                        'invalidate_all watermark with the exact comparison operators and operand roles.',
@@ -101,7 +101,7 @@ PROPERTIES = {
         'does_not_decide': 'clock monotonicity; concurrent visibility',
     },
     'C07': {
-        'rules': [live.rule_guard_live_va, must.rule_must_invalidate, must.rule_auth_value, stale.rule_stale_ts, must.rule_unlink_both, flow.rule_flow_unsync, stale.rule_auth_ts_writers],
+        'rules': [live.rule_guard_live_va, must.rule_must_invalidate, must.rule_auth_value, stale.rule_stale_ts, must.rule_unlink_both, flow.rule_flow_unsync, stale.rule_auth_ts_writers, must.rule_update_resets],
         'explanation': 'Every hit path of the 3 sync lookups establishes ts < valid_after == false (strict) for both timestamp stores of '
                        'the returned entry.',
         'decides': 'the watermark comparison is strict and applied by every sync lookup',
@@ -115,7 +115,7 @@ PROPERTIES = {
         'does_not_decide': "DashMap's iteration guarantees under concurrent writers",
     },
     'C03': {
-        'rules': [live.rule_miss_reasons, adm.rule_admission_outcomes, must.rule_must_insert, flow.rule_flow_unsync, flow.rule_flow_admit_sums_unsync, flow.rule_flow_sync,
+        'rules': [live.rule_miss_reasons, adm.rule_admission_outcomes, must.rule_must_insert, must.rule_update_resets, flow.rule_flow_unsync, flow.rule_flow_admit_sums_unsync, flow.rule_flow_sync,
                   stale.rule_stale_ts, stale.rule_stale_removal, stale.rule_admit_live, adm.rule_must_recency, adm.rule_cmp_evict],
         'explanation': 'Every miss path of the 6 lookups is explained by key-absent / iterator-exhausted or a true expiry / watermark '
                        'comparison on that entry.',
